@@ -248,6 +248,24 @@ fn scenarios_unordered(prop: &str, tier: &str) -> Vec<Scenario> {
             }
         }
         if prop == "C01" {
+            // a POINT obstacle sitting exactly on a goal sample that interpolation reaches only up to an ulp:
+            // interpolate(a, b, 1) need not be b bit for bit, and the state a planner stores is b itself - the
+            // state that enters the tree (and ends the path) is the one that has to have been shown to the checker
+            if let Some((a, bb)) = with_kit!(kit, ulp_mismatch_pair(&b)) {
+                let l = crate::refspace::lvs(&b.spec);
+                for pk in Pk::ALL {
+                    for sm in [1.0, 1e6] {
+                        let mut sc = b.scenario(b.world_named("point-obstacle-on-the-goal-sample", vec![ObstSpec::Ball(bb.clone(), 0.0)]), b.params(pk, if pk == Pk::Prm { 1.6 } else { sm }, 2.5, 0.0), &format!("C01/{kit}/point-obstacle-on-the-goal-sample/{}x{sm}", pk.name()));
+                        sc.start = a.clone();
+                        sc.goal_samples = vec![bb.clone()];
+                        sc.goal_balls = vec![(bb.clone(), 0.02 * l)];
+                        let mut letters: Vec<crate::kit::V> = vec![a.clone(), bb.clone()];
+                        letters.extend(b.sub3.iter().map(|&i| b.alphabet[i as usize].clone()));
+                        sc.alphabet = letters;
+                        out.push(sc);
+                    }
+                }
+            }
             // a start the checker accepts but the space bounds reject, with a small obstacle sitting exactly
             // where the bounds would put that start if it were "repaired": whatever state heads the path has
             // been validated
@@ -433,6 +451,51 @@ fn scenarios_unordered(prop: &str, tier: &str) -> Vec<Scenario> {
         }
     }
     out
+}
+
+/// Two in-bounds states a, b, at least three motion-check steps apart, for which the REAL space's
+/// `interpolate(a, b, 1.0)` is not b bit for bit but a state at positive distance from it (searched among
+/// the alphabet and nudged copies of its letters; None if this space's interpolation is exact on all of them).
+fn ulp_mismatch_pair<K: Kit>(b: &Base) -> Option<(crate::kit::V, crate::kit::V)> {
+    use crate::kit::V;
+    use oxmpl::base::space::StateSpace;
+    fn nudged(v: &V) -> Vec<V> {
+        match v {
+            V::Rv(x) => [0.3, -0.2, 0.7].iter().map(|d| { let mut y = x.clone(); y[0] += d; V::Rv(y) }).collect(),
+            V::So2(a) => [0.3, -0.2, 0.7].iter().map(|d| V::So2(a + d)).collect(),
+            V::So3(q) => [1.0, 2.0, 33.0].iter().map(|deg| {
+                let r = crate::refspace::quat_mul(q, &crate::catalog::quat_axis_angle([0.3, -0.7, 0.2], *deg));
+                let n = crate::refspace::quat_norm(&r);
+                V::So3([r[0] / n, r[1] / n, r[2] / n, r[3] / n])
+            }).collect(),
+            V::Cmp(c) => nudged(&c[0]).into_iter().map(|f| { let mut d = c.clone(); d[0] = f; V::Cmp(d) }).collect(),
+        }
+    }
+    let sp = K::build(&b.spec);
+    let l = sp.get_longest_valid_segment_length();
+    let dist = crate::scen::dist_fn::<K>(&b.spec);
+    let mut cands: Vec<V> = Vec::new();
+    for v in &b.alphabet {
+        cands.extend(nudged(v));
+    }
+    cands.extend(b.alphabet.iter().cloned());
+    for x in &cands {
+        for y in &cands {
+            let (sx, sy) = (K::from_v(x), K::from_v(y));
+            if !sp.satisfies_bounds(&sx) || !sp.satisfies_bounds(&sy) {
+                continue;
+            }
+            if !(sp.distance(&sx, &sy) > 0.35 * l) {
+                continue;
+            }
+            let mut o = sx.clone();
+            sp.interpolate(&sx, &sy, 1.0, &mut o);
+            if K::bits(&o) != K::bits(&sy) && dist(&o, &sy) > 0.0 && dist(&sx, &sy) > 0.0 {
+                return Some((x.clone(), y.clone()));
+            }
+        }
+    }
+    None
 }
 
 fn farthest_state<K: Kit>(b: &Base, s: &crate::kit::V) -> crate::kit::V {
